@@ -707,7 +707,10 @@ def check_blob(ctx: Any, state: bytes, call: bytes | None) -> None:
     case = {"state": state.hex(), "call": None if call is None else call.hex()}
     ctx.case(case, nontrivial=True, tags=("blob:rt",))
     blob = _encode_resume_token(state, call)
-    back = _decode_resume_token(blob)
+    try:
+        back: Any = _decode_resume_token(blob)
+    except Exception as e:  # noqa: BLE001
+        back = ("raised", type(e).__name__, str(e)[:120])
     if back != (state, call or None):
         ctx.fail(case, f"C11:resume-token-rt:{'none' if call is None else ('empty' if not call else 'call')}",
                  f"decode(encode(s, c)) = {back!r}")
@@ -791,7 +794,7 @@ def run(ctx: Any) -> None:
     thorough = ctx.tier == "thorough"
     for m in corpus():
         check_producer(ctx, m, n_caps=8 if not thorough else 14, n_resume=6 if not thorough else 1000)
-    for _ in range(ctx.budget(30, 700)):
+    for _ in range(ctx.budget(24, 700)):
         check_producer(ctx, gen_producer(rng), n_caps=5 if not thorough else 10, n_resume=4 if not thorough else 1000)
 
 
